@@ -178,6 +178,10 @@ def run_batch_real(params: Dict[str, Any]) -> Dict[str, Any]:
               if rng.random() < 0.5:
                   time.sleep(rng.random() * 0.004)
               before = set(master.pending_futures)
+              if params.get("reseed"):
+                  # a caller that re-seeds the GLOBAL random generator before preparing each job (reproducible payloads):
+                  # the process's PRNG state is the same at every enqueue
+                  random.seed(20261005)
               log.append((next(seq), "enq", i + 1, None, None))
               if params.get("perturb") == "focus-enqueue":
                   # the caller is held at every line of enqueue() for longer than a job's whole round trip
@@ -348,7 +352,7 @@ def check(tier: str) -> int:
         if b % 16 == 7 and n >= 3:
             fail_at = sorted(set(range(n)) - {rng.randrange(n)})        # (almost) every job fails: several failure reports in flight at once
         plist.append({"seed": core.seed() * 9973 + b, "njobs": n, "nworkers": rng.randint(1, 2) if life == "recycle" else rng.randint(1, 4),
-                      "switch": 10 ** rng.uniform(-6, -2.3), "fail_at": fail_at, "timeout": 90.0, "life": life,
+                      "switch": 10 ** rng.uniform(-6, -2.3), "fail_at": fail_at, "timeout": 90.0, "life": life, "reseed": b % 8 == 3,
                       "perturb": "focus-enqueue" if slow_enqueue else [0, 0.05, 0.25, "focus"][b % 4]})
     hist = []
     for chunk in pmap(batch_chunk, plist, chunk=3, tasks_per_child=4):
